@@ -33,6 +33,9 @@ def messages(remote_as=65002):
     return [
         ('open_ok', frame(1, open_body(asn=remote_as if remote_as < 65536 else 23456,
                                        as4=remote_as if remote_as >= 65536 else remote_as))),
+        # the same acceptable OPEN from a peer whose BGP identifier has changed since the last session
+        ('open_ok_id2', frame(1, open_body(asn=remote_as if remote_as < 65536 else 23456, bgp_id='10.0.0.3',
+                                           as4=remote_as if remote_as >= 65536 else remote_as))),
         ('open_hold0', frame(1, open_body(asn=remote_as, hold=0, as4=remote_as))),
         ('open_hold1', frame(1, open_body(asn=remote_as, hold=1, as4=remote_as))),
         ('open_hold2', frame(1, open_body(asn=remote_as, hold=2, as4=remote_as))),
